@@ -247,7 +247,12 @@ func containsFold(list []string, k string) bool {
 var c04AllCaps = []string{"8BITMIME", "SMTPUTF8", "DSN", "ENHANCEDSTATUSCODES", "STARTTLS", "AUTH PLAIN LOGIN"}
 
 func c04Outcome(t *rapid.T, label string) refsmtp.Outcome {
-	switch rapid.IntRange(0, 3).Draw(t, label+"-kind") {
+	switch rapid.IntRange(0, 5).Draw(t, label+"-kind") {
+	case 4:
+		// not a fault at all: the positive reply of the step, on three lines
+		return refsmtp.Outcome{Kind: "multiline"}
+	case 5:
+		return refsmtp.Outcome{Kind: "reply", Code: rapid.SampledFrom([]int{450, 550, 552}).Draw(t, label+"-mlcode"), Text: "4.2.2 first line\nsecond line\nthird line"}
 	case 0:
 		return refsmtp.Outcome{Kind: "reply", Code: rapid.SampledFrom([]int{421, 450, 451, 452}).Draw(t, label+"-4yz"), Text: "4.3.0 try later"}
 	case 1:
